@@ -1225,7 +1225,7 @@ C13_RULE = ("case = one run: 2-8 free-running plain threads issue seeded random 
             "every key, hit <=> owns_lock(), held bytes never change, no operation called after a hit returned "
             "completes before the hit is released, progress watchdog (a leaked lock stops every thread), scans "
             "under the lock stay ordered; crashes / sanitizer reports (ASan+UBSan; TSan in the thorough tier) "
-            "count as violations; non-trivial = operations of >= 2 threads on the same key overlapped and a held "
+            "count as violations (a ThreadSanitizer build runs a share of the runs in both tiers); non-trivial = operations of >= 2 threads on the same key overlapped and a held "
             "hit overlapped a writer's call; distinct by run configuration")
 
 
@@ -1246,10 +1246,9 @@ def check_c13(pid, tier, seed):
     runs = 1500 if tier == "quick" else 60000
     cmds = [[exe, "--seed", str(seed * 1000 + i), "--runs", str(runs), "--out", os.path.join(outdir, f"stats{i}.json"),
              "--fail-dir", outdir] for i in range(NCPU)]
-    if tier == "thorough":
-        tsan = build("mx_tsan")
-        cmds += [[tsan, "--seed", str(seed * 1000 + 100 + i), "--runs", "3000", "--out",
-                  os.path.join(outdir, f"stats_t{i}.json"), "--fail-dir", outdir] for i in range(4)]
+    tsan = build("mx_tsan")   # ThreadSanitizer build: an operation that skips the mutex races on tree memory
+    cmds += [[tsan, "--seed", str(seed * 1000 + 100 + i), "--runs", "400" if tier == "quick" else "6000", "--out",
+              os.path.join(outdir, f"stats_t{i}.json"), "--fail-dir", outdir] for i in range(4)]
     env = dict(os.environ, TSAN_OPTIONS="halt_on_error=1 exitcode=66")
     for c, rc, out, err in run_parallel(cmds, timeout=6 * 3600, env=env):
         if rc == 0:
@@ -1292,7 +1291,7 @@ def check_c13(pid, tier, seed):
         "held_hits": counters.get("held_hits", 0),
         "runs_by_thread_count": {k[13:]: v for k, v in counters.items() if k.startswith("runs_threads_")},
         "linearizability_search_budget_exceeded": counters.get("runs_with_linearizability_search_budget_exceeded", 0),
-        "tsan_build_used": tier == "thorough",
+        "tsan_build_used": True,
         "regression_replays": nrep,
         "inconclusive": res.inconclusive,
         "exhaustive": False,
@@ -1355,7 +1354,7 @@ def main():
     a = ap.parse_args()
     os.makedirs(WORK, exist_ok=True)
     if a.build_all:
-        for t in ["seq", "fuzz_seq", "enc_fast", "enc_san", "lock", "qsbr", "olc", "olc_nd", "qsbr_fault", "qp_dbg", "qp_ndbg", "mx"] + [f"cfgx_{i}" for i in range(16)]:
+        for t in ["seq", "fuzz_seq", "enc_fast", "enc_san", "lock", "qsbr", "olc", "olc_nd", "qsbr_fault", "qp_dbg", "qp_ndbg", "mx", "mx_tsan"] + [f"cfgx_{i}" for i in range(16)]:
             build(t)
         return 0
     seed = a.seed if a.seed is not None else int(os.environ.get("VERIF_SEED", "1") or 1)
